@@ -248,7 +248,7 @@ def h_attributes(ctx):
     hdr = {'sh_offset': pad, 'sh_size': len(data), 'sh_flags': 0, 'sh_type': 'SHT_ARM_ATTRIBUTES', 'sh_addralign': 1}
     cls = SEC.ARMAttributesSection if arch == 'arm' else SEC.RISCVAttributesSection
     sec = cls(hdr, '.attributes', _Elf(st, structs, little))
-    subs = list(sec.iter_subsections())
+    subs = ctx.drain(sec.iter_subsections())
     ctx.outcome('ok')
     ctx.check_eq('subsections/count', len(subs), len(want))
     if len(subs) != len(want):
@@ -256,7 +256,7 @@ def h_attributes(ctx):
     for i, (s, w) in enumerate(zip(subs, want)):
         ctx.check_eq('subsection/vendor', s['vendor_name'], w['vendor'])
         ctx.check_eq('subsection/length', s['length'], w['length'])
-        sss = list(s.iter_subsubsections())
+        sss = ctx.drain(s.iter_subsubsections())
         ctx.check_eq('subsubsections/count', len(sss), len(w['subsubs']))
         if len(sss) != len(w['subsubs']):
             return
@@ -265,7 +265,7 @@ def h_attributes(ctx):
             ctx.check_eq('subsub/length', ss.header.value, ws['length'])
             if ws['scope'] != 1:
                 ctx.check_eq('subsub/numbers', ss.header.extra, ws['numbers'])
-            attrs = list(ss.iter_attributes())
+            attrs = ctx.drain(ss.iter_attributes())
             ctx.check_eq('attributes/count', len(attrs), len(ws['attrs']))
             if len(attrs) != len(ws['attrs']):
                 return
